@@ -236,6 +236,51 @@ fn prune_breaks_chain() -> i32 {
     }
 }
 
+/// Candidate F-o: an incremental backup ships the *current* MANIFEST and the WAL segments newer than its parent, but never a
+/// snapshot.  After a snapshot + WAL compaction between the full and the incremental backup the shipped MANIFEST names a
+/// snapshot that is in no archive of the chain, and the segments that snapshot covered are gone from the source directory.
+fn incremental_after_snapshot() -> i32 {
+    use kyrodb_engine::backup::{BackupManager, RestoreManager, ClearDirectoryOptions};
+    let tmp = tempfile::TempDir::new().unwrap();
+    let data = tmp.path().join("data");
+    let backups = tmp.path().join("backups");
+    let restore = tmp.path().join("restore");
+    std::fs::create_dir_all(&backups).unwrap();
+    std::fs::create_dir_all(&restore).unwrap();
+    let metric = DistanceMetric::Euclidean;
+    // tiny rotation threshold: every insert lands in its own segment, so a later snapshot compacts the older ones away
+    let b = open_new(&data, metric, 0, 64);
+    b.insert(1, vec![1.0, 0.0, 0.0, 0.0], HashMap::new()).unwrap();
+    b.create_snapshot().unwrap();
+    let mgr = BackupManager::new(&backups, &data).unwrap();
+    let full = mgr.create_full_backup("full".to_string()).unwrap();
+    std::thread::sleep(Duration::from_millis(1100));
+    for id in 2..=5u64 { b.insert(id, vec![0.0, id as f32, 0.0, 0.0], HashMap::new()).unwrap(); }
+    b.create_snapshot().unwrap();
+    for id in 6..=7u64 { b.insert(id, vec![0.0, 0.0, id as f32, 0.0], HashMap::new()).unwrap(); }
+    let live = census(&b, 1..=7u64);
+    let inc = match mgr.create_incremental_backup(full.id, "inc".to_string()) {
+        Ok(m) => m,
+        Err(e) => { println!("NOT-REPRODUCED: the incremental backup was refused: {:#}", e); return 0; }
+    };
+    drop(b);
+    let rm = RestoreManager::new(&backups, &restore).unwrap();
+    if let Err(e) = rm.restore_from_backup_with_options(inc.id, &ClearDirectoryOptions::new().with_allow_clear(true)) {
+        println!("NOT-REPRODUCED: restore itself was refused (nothing was silently lost): {:#}", e); return 0;
+    }
+    match recover(&restore, metric) {
+        Err(e) => { println!("REPRODUCED: full {} + incremental {} verify and restore, but the restored directory does not start: {:#}", full.id, inc.id, e); 1 }
+        Ok(rb) => {
+            let got = census(&rb, 1..=7u64);
+            if got == live { println!("NOT-REPRODUCED: restored collection equals the live one"); 0 }
+            else {
+                let missing: Vec<u64> = live.iter().zip(got.iter()).filter(|(a, b)| a.1 != b.1).map(|(a, _)| a.0).collect();
+                println!("REPRODUCED: full {} + incremental {} verify and restore, the restored engine starts, but documents {:?} differ from the collection that existed when the incremental was taken", full.id, inc.id, missing); 1
+            }
+        }
+    }
+}
+
 /// F-k: with `disable_normalization_check` the pre-log validation accepts a vector whose squared norm overflows under
 /// Cosine / InnerProduct: normalisation multiplies every lane by 1/sqrt(inf) = 0, the all-zero result is finite, is
 /// logged and acknowledged, and the replay-time normalisation then refuses it ("norm is zero"): restart fails.
@@ -463,6 +508,7 @@ fn main() {
         Some("failed-overwrite") => failed_overwrite(args.get(2).map(|s| s.as_str()).unwrap_or("nan")),
         Some("zero-after-normalize") => zero_after_normalize(),
         Some("prune-breaks-chain") => prune_breaks_chain(),
+        Some("incremental-after-snapshot") => incremental_after_snapshot(),
         Some("periodic-idle") => periodic_idle(),
         Some("periodic-idle-inner") => periodic_idle_inner(args.get(2).map(|s| s.as_str()).unwrap_or("/nonexistent")),
         Some("crash-after-unlink") => crash_after_unlink(),
